@@ -28,6 +28,18 @@ def _align_diff(a, b):
     return {"index": i, "tree": a[max(0, i - 2) : i + 3], "relex": b[max(0, i - 2) : i + 3], "kind": kind}
 
 
+def _coalesce_ws(tokens):
+    """Adjacent whitespace tokens are one run of whitespace: in templated files the lexer itself splits a
+    whitespace run at template-slice boundaries, which is not a fix gluing two tokens."""
+    out = []
+    for raw, cls in tokens:
+        if cls == "whitespace" and out and out[-1][1] == "whitespace":
+            out[-1] = (out[-1][0] + raw, "whitespace")
+        else:
+            out.append((raw, cls))
+    return out
+
+
 def c12(case):
     r, lnt, obs = fixcase.observe(case)
     if lnt is None:
@@ -37,8 +49,8 @@ def c12(case):
     tree = obs["linted"].tree
     if tree is None:
         return {"status": "skip", "counters": {"no_tree": 1}}
-    tree_tokens = [(s.raw, fixcase.coarse(s)) for s in tree.raw_segments if s.raw != ""]
-    relex = fixcase.lex_classes(lnt, tree.raw)
+    tree_tokens = _coalesce_ws([(s.raw, fixcase.coarse(s)) for s in tree.raw_segments if s.raw != ""])
+    relex = _coalesce_ws(fixcase.lex_classes(lnt, tree.raw))
     fails = []
     d = _align_diff(tree_tokens, relex)
     if d:
